@@ -25,7 +25,9 @@ import (
 	"bytes"
 	"context"
 	"encoding/json"
+	"errors"
 	"fmt"
+	"io"
 	"math"
 	"reflect"
 	"sort"
@@ -242,6 +244,7 @@ func c03Fidelity(c *Ctx, sh *shard) {
 		c03PooledRead(c, sh, w, wi)
 		w.stop()
 	}
+	c03CursorFaults(c, sh)
 }
 
 // expected is the JSON round trip of an ingested row; ok is false when encoding/json cannot decode the marshaled form.
@@ -715,6 +718,91 @@ func c03PooledRead(c *Ctx, sh *shard, w *tWorld, wi int) {
 			}
 		}
 	}
+}
+
+// c03CursorFaults: the block filter cursor draws its chunk buffers from the same pool as the block scans.
+// A filter region of several chunks, a read failure at the k-th chunk read (or none), then release: every
+// buffer the cursor drew is returned exactly once, none that it does not hold (a buffer returned twice is
+// handed to two scans later on). The get/put log goes through the ownership LTS.
+func c03CursorFaults(c *Ctx, sh *shard) {
+	const sec = 3 << 20 // a section per chunk: two do not fit under the chunk target
+	for probe := 0; probe < c.pick(4, 12); probe++ {
+		nBlocks := 3 + c.intn(2)
+		roff := int64(4096)
+		blocks := make([]bs.DataBlockMetadata, nBlocks)
+		for i := range blocks {
+			blocks[i] = bs.DataBlockMetadata{RowDataOffset: i * 100, RowDataSize: 100, BloomFilterOffset: int(roff) + i*sec, BloomFilterSize: sec}
+		}
+		rsize := int64(nBlocks * sec)
+		vf := &virtualFile{size: roff + rsize}
+		pr := &probeFile{size: vf.size, fill: vf.fill}
+		failAt := -1
+		if probe%4 != 3 {
+			failAt = 1 + c.intn(nBlocks-1) // the second or a later chunk read
+		}
+		rd := &failingReadSeeker{inner: pr, failAt: failAt}
+		log := &ownLog{}
+		bs.VerifSetSink(log.sink)
+		steps, failed := 0, false
+		p := safeCall(func() {
+			cur := bs.VerifNewFilterCursor(rd, blocks, roff, roff+rsize)
+			defer cur.Release()
+			for i := range blocks {
+				st := cur.Step(i)
+				steps++
+				if st.ReadFailed {
+					failed = true
+					break
+				}
+			}
+		})
+		bs.VerifSetSink(nil)
+		desc := map[string]any{"kind": "cursor-fault", "blocks": nBlocks, "section_bytes": sec, "fail_at_chunk_read": failAt, "steps": steps, "read_failed": failed}
+		if p != "" {
+			c.violation("c03-cursor-panic", "blockFilterCursor panicked: "+p, desc)
+			continue
+		}
+		held := map[string]bool{}
+		for _, e := range log.events {
+			f := strings.Fields(e)
+			switch f[0] {
+			case "OGet":
+				held[f[1]] = true
+			case "OPut":
+				if !held[f[1]] {
+					c.violation("c03-buffer-returned-twice", fmt.Sprintf("the filter cursor returned a pool buffer it did not hold (chunk read %d failed=%v): two later scans can be handed the same buffer", failAt, failed), desc)
+				}
+				delete(held, f[1])
+			}
+		}
+		if len(held) > 0 {
+			c.mismatch("c03-cursor-leak", fmt.Sprintf("%d chunk buffers were never returned to the pool", len(held)), desc)
+		}
+		events := append([]string(nil), log.events...)
+		desc["events"] = len(events)
+		sh.add(c, fmt.Sprintf("TOwn %s %s", coqN(0), coqList(events)), desc)
+		c.count([]string{"C03"}, fmt.Sprintf("cursor-fault-%d-%d-%d", probe, nBlocks, failAt), true, desc)
+		c.dist("c03_cursor_fault", fmt.Sprintf("fail_at=%d failed=%v", failAt, failed))
+	}
+}
+
+// failingReadSeeker fails the failAt-th Read call (counted from 0) and every later one.
+type failingReadSeeker struct {
+	inner  io.ReadSeeker
+	failAt int
+	reads  int
+}
+
+func (f *failingReadSeeker) Seek(off int64, whence int) (int64, error) {
+	return f.inner.Seek(off, whence)
+}
+func (f *failingReadSeeker) Read(p []byte) (int, error) {
+	n := f.reads
+	f.reads++
+	if f.failAt >= 0 && n >= f.failAt {
+		return 0, errors.New("injected read failure")
+	}
+	return f.inner.Read(p)
 }
 
 // ---------------------------------------------------------------- (d) pool
